@@ -453,6 +453,12 @@ class Inliner:
                 if q in self.unknown:
                     return q, self.unknown[q], True
             # instance.method(...) where the method name belongs to exactly one new private class
+            # a new private method of an existing class, called on a local known to be an instance of it
+            tcls = self._typed.get(f.value.id)
+            if tcls and f.value.id not in ("self", "cls"):
+                q = f"{tcls}.{f.attr}"
+                if q in self.unknown and not any(isinstance(d, ast.Name) and d.id in ("staticmethod", "classmethod") for d in self.unknown[q].node.decorator_list):
+                    return q, self.unknown[q], True
             qs = self.new_methods.get(f.attr)
             if qs and self._typed.get(f.value.id) != qs[0].split(".")[0]:
                 qs = None  # the receiver is not known to be an instance of that class
@@ -558,11 +564,12 @@ class Inliner:
                     out.append(st)
                 return out
 
-            body = conv(body)
-            for st in body:
-                for x in _walk_own_stmt(st):
-                    if isinstance(x, (ast.Yield, ast.YieldFrom)):
+            stmt_level = {id(st.value) for b0 in body for st in _walk_own_stmt(b0) if isinstance(st, ast.Expr) and isinstance(st.value, (ast.Yield, ast.YieldFrom))}
+            for b0 in body:
+                for x in _walk_own_stmt(b0):
+                    if isinstance(x, (ast.Yield, ast.YieldFrom)) and id(x) not in stmt_level:
                         raise _CannotInline("yield used as an expression")
+            body = conv(body)
         except _CannotInline:
             return None
         self.done.append(f"{q} (generator) -> {caller_q}")
@@ -949,19 +956,20 @@ class Inliner:
     def _type_names(self, fn: ast.AST) -> None:
         """names in fn known to hold an instance of a new private class (constructed here or annotated parameter)."""
         self._typed: Dict[str, str] = {}
-        if not self.new_classes:
+        classes = self.new_classes | set(self.bases)
+        if not classes:
             return
         for a in ast.walk(fn):
             if isinstance(a, ast.arg) and a.annotation is not None:
                 t = ast.unparse(a.annotation).strip("'\"")
-                if t in self.new_classes:
+                if t in classes:
                     self._typed[a.arg] = t
             if isinstance(a, (ast.Assign, ast.AnnAssign)):
                 tg = a.targets[0] if isinstance(a, ast.Assign) and len(a.targets) == 1 else getattr(a, "target", None)
                 v = a.value
                 if isinstance(tg, ast.Name) and isinstance(v, ast.Call):
                     c = v.func
-                    if isinstance(c, ast.Name) and c.id in self.new_classes:
+                    if isinstance(c, ast.Name) and c.id in classes:
                         self._typed[tg.id] = c.id
                     elif isinstance(c, ast.Attribute) and isinstance(c.value, ast.Name) and c.value.id in self.new_classes:
                         self._typed[tg.id] = c.value.id
